@@ -478,6 +478,9 @@ class DB:
     """facts of one configuration ('serial' or 'omp')"""
 
     def __init__(self, config="serial", root=None):
+        # the thorough tier re-runs the path rules on the OpenMP configuration (the #ifdef _OPENMP branches are parsed there)
+        if config == "serial" and os.environ.get("TSG_CONFIG_OVERRIDE"):
+            config = os.environ["TSG_CONFIG_OVERRIDE"]
         self.root = root or build.facts_dir()
         self.dir = os.path.join(self.root, config)
         self.config = config
